@@ -3,6 +3,7 @@
 package main
 
 import (
+	"strconv"
 	"crypto/dsa"
 	"crypto/ecdsa"
 	"crypto/ed25519"
@@ -191,6 +192,17 @@ func init() {
 	ops["pgpsec"] = func(a []string) string {
 		return resInfo(file.PGPPrivateKey(file.Info{}, pgpArmor("PGP PRIVATE KEY BLOCK", unhx(a[0]))))
 	}
+	// pgpdates <key created> <signature created> <lifetime|->: the Created / Expires texts of gpgSignatureAttributes
+	ops["pgpdates"] = func(a []string) string {
+		kc, _ := strconv.ParseUint(a[0], 10, 32)
+		sc, _ := strconv.ParseUint(a[1], 10, 32)
+		lt := int64(-1)
+		if a[2] != "-" {
+			lt, _ = strconv.ParseInt(a[2], 10, 64)
+		}
+		c, e := file.VerifGpgDates(uint32(kc), uint32(sc), lt)
+		return c + " " + e
+	}
 	ops["pgp"] = func(a []string) string {
 		return resInfo(file.PGPPublicKey(file.Info{}, pgpArmor("PGP PUBLIC KEY BLOCK", unhx(a[0]))))
 	}
@@ -280,7 +292,29 @@ func secretVariant(b pgpBuilt, r *rng) []byte {
 	return out
 }
 
+func genPgpDates(tier string, r *rng) {
+	vals := []uint32{0, 1, 86399, 86400, 86401, 951782400, 1700000000, 0x7FFFFFFF, 0x80000000, 0xFFFFFFFE, 0xFFFFFFFF}
+	lts := []string{"-", "0", "1", "86399", "86400", "31536000", "2147483647", "2147483648", "4294967295"}
+	for _, kc := range vals {
+		for _, lt := range lts {
+			emit("pgpdates", fmt.Sprint(kc), fmt.Sprint(vals[r.intn(len(vals))]), lt)
+		}
+	}
+	n := 300
+	if tier == "thorough" {
+		n = 20000
+	}
+	for i := 0; i < n; i++ {
+		lt := "-"
+		if r.intn(5) > 0 {
+			lt = fmt.Sprint(uint32(r.intn(1 << 31)) * 2)
+		}
+		emit("pgpdates", fmt.Sprint(uint32(r.intn(1<<31))*2+uint32(r.intn(2))), fmt.Sprint(uint32(r.intn(1<<31))*2), lt)
+	}
+}
+
 func genC12(tier string, r *rng) {
+	genPgpDates(tier, r)
 	// keys that carry certifications by other people's keys, and unprotected secret-key blocks (incl. ECDH subkeys)
 	{
 		fs := pgpKeyFactories()
